@@ -9,17 +9,17 @@ TECH = {
          "Every byte length 0..2B+9 and every bit length up to 2 blocks for 10 algorithms are enumerated; random multi-block messages, multi-word counters via preset midstates and over-long bit lengths are sampled. Exploration: finds violations, does not prove absence."),
  "C02": ("differential testing against independent reference ciphers (enc and dec written separately): single-bit sweeps, exhaustive GF(2^8) table, Hypothesis, call histories, rejection of undefined sizes",
          "All 65 536 gmul pairs exhaustively; every single-bit block/key/tweak per configuration; random blocks; sizes the algorithms do not define must raise."),
- "C03": ("round-trip (inverse) relations: enumeration of whole component domains + Hypothesis round trips",
+ "C03": ("round-trip (inverse) relations: enumeration of whole component domains + Hypothesis round trips + one-object histories with refused calls",
          "Component pairs (S-boxes, permutations, linear layers, rotations for all widths <= 11/16, index maps) are enumerated on their whole domain or a basis of it; cipher round trips sampled."),
  "C04": ("differential testing against a reference sponge on bit lists and hashlib: exhaustive small widths (every rate, every bit length) + Hypothesis + duplex histories",
          "Keccak[25]/[50] exhaustively over every rate and bit length in both bit orders; larger widths, SHA-3/SHAKE and duplex call sequences sampled."),
  "C05": ("model-based testing: SP 800-38A reference modes over the cipher object's own block function, reference paddings, round trips through fresh objects, call histories; SP 800-38A known answers",
          "Every message length 0..3B+1 for DES/AES x modes x paddings enumerated; all ciphers, counter wrap-around and histories sampled."),
- "C06": ("differential testing against reference Salsa20/ChaCha/RC4; metamorphic prefix law; stream histories (op-list machine); guarded hook for block counters >= 2^32",
+ "C06": ("differential testing against reference Salsa20/ChaCha/RC4; metamorphic prefix law; stream and object histories (op-list machines, incl. hash() and abandoned keystream generators on keyed objects); guarded hook for block counters >= 2^32",
          "Length sweep 0..130, random configurations, keystream blocks around 2^32 via the hook, RC4 as one continuous stream over split messages."),
  "C07": ("model-based testing against a (value,size) model: exhaustive widths 0..12/16, every bit order on byte strings, pack/unpack for every byte count",
          "All values of all widths <= 12 (16) through every constructor, conversion and round trip; byte-string loads under every admissible bit order."),
- "C08": ("model-based testing: exhaustive operand pairs (widths <= 6) and index expressions (widths <= 4/5), wide sampled widths, mutation histories (op-list machine); atheris on index expressions (thorough)",
+ "C08": ("model-based testing: exhaustive operand pairs (widths <= 6) and index expressions (widths <= 4/5), wide sampled widths, self-assignment b[sel]=b, mutation histories (op-list machine); atheris on index expressions (thorough)",
          "16 129 operand pairs x all operators and every slice/list index expression on small widths exhaustively; word-boundary widths and histories sampled."),
  "C09": ("model-based testing against reference paddings: exhaustive length sweeps, counters after every block, unpad round trip, exhaustive tiny malformed paddings, continuation histories; atheris on remove() (thorough)",
          "Every length 0..3B+1 per scheme and block size, every L%8 at boundaries; all 1-2 byte strings for PKCS#7/X9.23 removal; continuation histories sampled."),
@@ -33,7 +33,7 @@ TECH = {
          "Key-length sweep enumerated, messages and setkey sequences sampled."),
  "C14": ("metamorphic relation piecewise == one-shot plus independent digests: every cut-point list over <= 3/4 blocks enumerated, longer sampled; Nilsimsa every byte cut",
          "16 hashes x all non-decreasing cut lists x 6 final lengths; bit counter after every piece; Nilsimsa over every byte cut."),
- "C15": ("differential testing against zlib and bitwise division; validity predicate for forged data: exhaustive <= 2-byte strings, every forge position for |data| <= 24/40, Hypothesis",
+ "C15": ("differential testing against zlib and bitwise division; validity predicate for forged data: exhaustive <= 2-byte strings, every forge position for |data| <= 24/40, Hypothesis, histories with several tables alive",
          "All 65 793 short strings; generic widths 8..64; backward tables; every admissible forge position on short data."),
  "C16": ("model-based testing against int lists mod 2^k: exhaustive vectors of dimension <= 3/4 over Z/2,Z/4,Z/8 (3.5e5 / 2.2e7 ordered pairs), index expressions, re-chunking, observe/mutate histories; atheris (thorough)",
          "All ordered pairs x 5 operators in both orders on small rings; rings up to 2^64 and dimensions up to 20 sampled."),
@@ -43,7 +43,7 @@ TECH = {
          "242 (>= 1000 thorough) programs incl. weak/semi-weak/parity-twin keys; exploration, not exhaustive over keys."),
  "C19": ("model-based testing against TLSH / Nilsimsa models: all 30 configurations x gate lengths, Hypothesis data classes, from_hash round trip, distance laws over produced and arbitrary digests; atheris (thorough)",
          "Digest or None == model; distances symmetric, zero on identical, equal across object/bytes forms."),
- "C20": ("exhaustive enumeration against itertools and brute force: every list <= 5 over 3 letters + repeat patterns <= 7/8, every target 0..sum for 600/3000 item lists, call histories",
+ "C20": ("exhaustive enumeration against itertools and brute force: every list <= 5 over 3 letters + repeat patterns <= 7/8, every target 0..sum for 600/3000 item lists, call histories (subset sum; unfinished and interleaved combink iterators)",
          "permutk multisets, nextperm successor and full cycles, combink vs itertools, exactsum/dynprog vs all 2^n subsets."),
 }
 
